@@ -77,6 +77,12 @@ pub struct EntrySpec {
     pub gap_before: Vec<u8>,
     /// extra general-purpose flag bits (e.g. deflate option bits 1,2)
     pub flags_extra: u16,
+    /// what the local header of a data-descriptor entry says about CRC and sizes: 0 = zeros (the usual
+    /// layout), 1 = with `local_zip64`: 0xFFFFFFFF in the 32-bit size fields and zeros in the ZIP64 record
+    /// (CPython force_zip64 on an unseekable sink, Info-ZIP `zip -fz -`), 2 = the real values although
+    /// bit 3 is set and a descriptor follows (some producers set bit 3 on every entry)
+    #[serde(default)]
+    pub desc_mode: u8,
 }
 
 impl EntrySpec {
@@ -105,6 +111,7 @@ impl EntrySpec {
             enc: Enc::None,
             gap_before: vec![],
             flags_extra: 0,
+            desc_mode: 0,
         }
     }
     pub fn encrypted(&self) -> bool {
@@ -306,7 +313,9 @@ pub fn build(spec: &ArchiveSpec) -> Result<Built, String> {
         w.u16(stored_method, "l_method");
         w.u16(e.dos_time, "l_time");
         w.u16(e.dos_date, "l_date");
-        let (lcrc, lcs, lus) = if e.desc != Desc::None {
+        let (lcrc, lcs, lus) = if e.desc != Desc::None && e.desc_mode == 1 && e.local_zip64 {
+            (0u32, 0xFFFFFFFF, 0xFFFFFFFF)
+        } else if e.desc != Desc::None && e.desc_mode != 2 {
             (0u32, 0u32, 0u32)
         } else if e.local_zip64 {
             (stored_crc, 0xFFFFFFFF, 0xFFFFFFFF)
@@ -320,7 +329,7 @@ pub fn build(spec: &ArchiveSpec) -> Result<Built, String> {
         if e.local_zip64 {
             lx.extend_from_slice(&1u16.to_le_bytes());
             lx.extend_from_slice(&16u16.to_le_bytes());
-            let (a, b) = if e.desc != Desc::None { (0u64, 0u64) } else { (usize_, csize) };
+            let (a, b) = if e.desc != Desc::None && e.desc_mode != 2 { (0u64, 0u64) } else { (usize_, csize) };
             lx.extend_from_slice(&a.to_le_bytes());
             lx.extend_from_slice(&b.to_le_bytes());
         }
